@@ -284,7 +284,11 @@ def bnd_generated(tier, seed):
             if not fired:
                 fired.append(1)
                 m._perform_transition(t1.name)
-        t0.destination.events.enter.register(handler)
+        # the handler sits on the destination itself or (every other case, where there is one) on an ancestor of the
+        # destination that is entered by t0 - it then runs BEFORE the destination's own enter event (D33)
+        entered_ancestors = [a for a in ancestors(t0.destination)[1:] if a not in ancestors(m.current_state)]
+        holder = entered_ancestors[-1] if entered_ancestors and nested_cases % 2 else t0.destination
+        holder.events.enter.register(handler)
         nested_cases += 1
         n_eval += 1
         try:
